@@ -125,6 +125,7 @@ func runC11(c *Ctx, r *Report) {
 	c11Sentinel(c, r)
 	c11Results(c, r)
 	c11FreshDecoder(c, r)
+	readerKindIndependent(c, r, "C11-R5-results")
 	// R4
 	c03DecoderAdds(c, r)
 	c03ContainerWriters(c, r) // a message reaches its container complete, through the router, or not at all
@@ -199,6 +200,7 @@ func c11ChainSwallow(c *Ctx, fn *ssa.Function, s errSite, rets []*ssa.Return) (b
 	for _, ret := range rets {
 		rb := ret.Block()
 		eofOK, afterFirst := false, false
+		classGuard := ""
 		for _, b := range fn.Blocks {
 			if len(b.Instrs) == 0 {
 				continue
@@ -216,6 +218,9 @@ func c11ChainSwallow(c *Ctx, fn *ssa.Function, s errSite, rets []*ssa.Return) (b
 				if cal := call.Common().StaticCallee(); cal != nil && cal.String() == "errors.Is" && len(call.Common().Args) == 2 && call.Common().Args[0] == s.val {
 					if tgt := c.errTargetName(call.Common().Args[1]); eofClass[tgt] {
 						eofOK = true
+						if !strings.HasPrefix(tgt, modPath) {
+							classGuard = tgt
+						}
 					}
 				}
 			}
@@ -240,6 +245,9 @@ func c11ChainSwallow(c *Ctx, fn *ssa.Function, s errSite, rets []*ssa.Return) (b
 		}
 		if !afterFirst {
 			return false, fmt.Sprintf("%s swallows an EOF-class error without requiring that at least one file was decoded", describeReturn(c, ret))
+		}
+		if classGuard != "" {
+			return false, fmt.Sprintf("%s ends the chain on errors.Is(err, %s), which matches the end of input at any read site (a read that finds no byte at all returns io.EOF), not only the library's own first-header-byte sentinel: a stream cut exactly in front of a later read (the two CRC bytes of a non-first file) ends the chain without an error", describeReturn(c, ret), classGuard)
 		}
 	}
 	return true, "the only nil-returning error path is guarded by an EOF-class test on the decode error and by `at least one file decoded`"
